@@ -19,13 +19,13 @@ type Msg struct {
 	Val    *Val
 	Role   spectypes.BeaconRole
 	SSV    *spectypes.SSVMessage
-	Cons   *specqbft.SignedMessage                 // body of a consensus message (nil otherwise)
+	Cons   *specqbft.SignedMessage                  // body of a consensus message (nil otherwise)
 	Part   *spectypes.SignedPartialSignatureMessage // body of a partial-signature message (nil otherwise)
 	Sender spectypes.OperatorID                     // the operator that broadcasts it (signs the envelope)
 	Slot   phase0.Slot
 	At     time.Time // reception time, inside the slot / round window of the message
 	wire   [2][]byte
-	Tag    string    // coarse shape: "proposal/r1", "proposal/r3/justified", "round-change/r2/prepared", "decided/r1", "pre/randao", "post"
+	Tag    string // coarse shape: "proposal/r1", "proposal/r3/justified", "round-change/r2/prepared", "decided/r1", "pre/randao", "post"
 }
 
 func (m *Msg) Round() specqbft.Round {
@@ -49,7 +49,9 @@ func (m *Msg) WireBytes(w *World, post bool) []byte {
 }
 
 // Pubsub is the honest pubsub message (own topic, sender's envelope).
-func (m *Msg) Pubsub(w *World, post bool) *pubsub.Message { return Pubsub(m.Val.Topic(), m.WireBytes(w, post)) }
+func (m *Msg) Pubsub(w *World, post bool) *pubsub.Message {
+	return Pubsub(m.Val.Topic(), m.WireBytes(w, post))
+}
 
 // Clone returns a deep copy of the message bodies (mutators work on copies).
 func (m *Msg) Clone() *Msg {
@@ -299,17 +301,25 @@ func (w *World) Duty(v *Val, role spectypes.BeaconRole, slot phase0.Slot, prof P
 	return out
 }
 
-// rawVal is the validator qsim natively addresses for committee size n (Known4 for n=4; an unregistered-by-name
-// pseudo validator carrying the 7-operator committee for n=7, whose streams are only ever used re-addressed).
+// rawVal is the validator qsim natively addresses for committee size n: the registered KnownN when the key sets'
+// validator key is registered with that committee, otherwise a pseudo validator carrying the key sets' key and the
+// n-operator committee, whose streams are only ever used re-addressed (Retarget).
 func (w *World) rawVal(n int) *Val {
-	if n == 4 {
+	if n == w.native {
+		if n == 7 {
+			return w.Vals[Known7]
+		}
 		return w.Vals[Known4]
 	}
-	if w.raw7 == nil {
-		ks := qsim.KeySet(7)
-		w.raw7 = &Val{Kind: Known7, N: 7, KS: ks, PK: ks.ValidatorPK.Serialize(), Index: 0}
+	if w.raw[n] == nil {
+		ks := qsim.KeySet(n)
+		kind := Known4
+		if n == 7 {
+			kind = Known7
+		}
+		w.raw[n] = &Val{Kind: kind, N: n, KS: ks, PK: ks.ValidatorPK.Serialize()}
 	}
-	return w.raw7
+	return w.raw[n]
 }
 
 type consOut struct {
